@@ -164,6 +164,81 @@ def e2e_wide_restore(out, tier):
     return res
 
 
+def e2e_repeated_io_errors(out, tier):
+    """Error paths must give back what they took (a slot of a limiter, a lock, a descriptor): MANY targets whose input cannot be read
+    (the declared input is a directory: it opens, reading fails) next to targets that are fine, `num_workers` 1 and 2, keep-going.
+    Every unreadable target must fail, every other target must be built, and the build must RETURN -- however many errors came
+    first.  Second history: outputs replaced by directories between two builds (the restore runs into them), then built again."""
+    import os, shutil, subprocess, json, time
+    grog = vlib.build_grog()
+    base = os.path.join(vlib.scratch(), "c04ioerr")
+    shutil.rmtree(base, ignore_errors=True)
+    res = []
+    nbad = 40 if tier == "quick" else 200
+    for W in (1, 2):
+        ws, root = os.path.join(base, "w%d" % W, "ws"), os.path.join(base, "w%d" % W, "root")
+        os.makedirs(ws); os.makedirs(root)
+        targets = []
+        for k in range(nbad):
+            os.makedirs(os.path.join(ws, "adir%d" % k))
+            targets.append({"name": "bad%d" % k, "inputs": ["adir%d" % k], "outputs": ["bad%d.txt" % k], "command": "echo x > bad%d.txt" % k})
+        open(os.path.join(ws, "in.txt"), "w").write("v1\n")
+        targets.append({"name": "slow", "command": "sleep 1; echo s > slow.txt", "outputs": ["slow.txt"]})
+        for k in range(6):
+            targets.append({"name": "ok%d" % k, "inputs": ["in.txt"], "dependencies": [":slow"], "outputs": ["ok%d.txt" % k],
+                            "command": "cat in.txt slow.txt > ok%d.txt" % k})
+        json.dump({"targets": targets}, open(os.path.join(ws, "BUILD.json"), "w"))
+        open(os.path.join(ws, "grog.toml"), "w").write("num_workers = %d\n" % W)
+        env = {"PATH": os.environ["PATH"], "GROG_ROOT": root, "HOME": os.path.join(base, "w%d" % W), "NO_COLOR": "1"}
+        LIMIT = 90
+        runs = []
+
+        def build(step):
+            t0 = time.time()
+            try:
+                p = subprocess.run([grog, "build"], cwd=ws, env=env, stdin=subprocess.DEVNULL, stdout=subprocess.PIPE, stderr=subprocess.PIPE,
+                                   text=True, timeout=LIMIT)
+                rc, text = p.returncode, p.stdout + p.stderr
+            except subprocess.TimeoutExpired:
+                rc, text = "hang", ""
+            runs.append({"step": step, "rc": rc, "seconds": round(time.time() - t0, 2),
+                         "ok_outputs": sorted(f for f in os.listdir(ws) if f.startswith("ok") and os.path.isfile(os.path.join(ws, f)))})
+            return rc, text
+        rp = {"workspace": "%d targets whose declared input is a directory, //:slow (1 s), 6 targets that depend on it; num_workers=%d, keep-going" % (nbad, W),
+              "history": runs, "limit_s": LIMIT}
+        rc, text = build("build")
+        if rc == "hang":
+            out.violation("`grog build` does not return within %d s after %d targets failed with an unreadable input (num_workers=%d): "
+                          "an error path keeps a resource" % (LIMIT, nbad, W), rp)
+        elif rc == 0:
+            out.violation("a build with %d targets whose input cannot be read exits 0" % nbad, rp)
+        elif len(runs[-1]["ok_outputs"]) != 6:
+            out.violation("keep-going build with %d unreadable targets (num_workers=%d) built only %s of the 6 unaffected targets" % (
+                nbad, W, runs[-1]["ok_outputs"]), rp)
+        else:
+            # second history: the outputs of the good targets are replaced by directories, their input reverts: restore over a directory
+            for k in range(nbad):
+                shutil.rmtree(os.path.join(ws, "adir%d" % k))
+                open(os.path.join(ws, "adir%d" % k), "w").write("now a file\n")
+            rc, text = build("inputs readable again: build")
+            if rc == "hang" or rc != 0:
+                out.violation("after the unreadable inputs became files the build %s (num_workers=%d)" % ("does not return" if rc == "hang" else "fails: " + " ".join(text.split())[-200:], W), rp,
+                              no_input=(rc != "hang"))
+            else:
+                for k in range(6):
+                    os.unlink(os.path.join(ws, "ok%d.txt" % k)); os.makedirs(os.path.join(ws, "ok%d.txt" % k, "sub"))
+                for k in range(nbad):
+                    os.unlink(os.path.join(ws, "bad%d.txt" % k)); os.makedirs(os.path.join(ws, "bad%d.txt" % k))
+                rc, text = build("every output replaced by a directory: build (restores)")
+                if rc == "hang":
+                    out.violation("`grog build` does not return within %d s while restoring %d outputs over directories (num_workers=%d)" % (LIMIT, nbad + 6, W), rp)
+                elif rc == 0 and len(runs[-1]["ok_outputs"]) != 6:
+                    out.violation("a successful build left directories where %d restored file outputs should be (num_workers=%d)" % (6 - len(runs[-1]["ok_outputs"]), W), rp)
+        res.append({"num_workers": W, "unreadable_targets": nbad, "runs": runs})
+    shutil.rmtree(base, ignore_errors=True)
+    return res
+
+
 def run(out, tier):
     findings = {f["class"]: f for f in vlib.known_findings("C04")}
     info, scheds, extra = walkerlib.gated_campaign(out, "C04", tier, "term", race=(tier == "thorough"))
@@ -189,6 +264,7 @@ def run(out, tier):
         out.notes.append("restore fault cases not available yet")
     e2e = e2e_termination(out, tier)
     e2e["wide_restore"] = e2e_wide_restore(out, tier)
+    e2e["repeated_io_errors"] = e2e_repeated_io_errors(out, tier)
     samples = []
     for s in scheds[:400:150]:
         tr = extra.get("traces", {}).get(s["id"])
